@@ -349,7 +349,9 @@ func (s *scanner) ReadString() (String, error) {
 	bracketLevel := 1 // we are already inside the opening "("
 	ignoreLF := false
 	for {
-		if len(res) >= maxStringBytes {
+		// (every round appends at most one byte, and the closing bracket
+		// behind maxStringBytes bytes must still be read)
+		if len(res) > maxStringBytes {
 			return nil, &MalformedFileError{
 				Err: errors.New("string too long"),
 			}
@@ -503,12 +505,14 @@ func (s *scanner) ReadName() (Name, error) {
 		if len(buf) == 0 {
 			break
 		}
-		if len(res) >= maxNameBytes {
+		b := buf[0]
+		if len(res) >= maxNameBytes && class[b] == regular {
+			// (only a further byte of the name exceeds the limit, the
+			// delimiter behind a name of maxNameBytes bytes does not)
 			return "", &MalformedFileError{
 				Err: errors.New("name too long"),
 			}
 		}
-		b := buf[0]
 		if b == '#' {
 			if b, ok := s.tryHex(); ok {
 				res = append(res, b)
